@@ -243,6 +243,45 @@ theorem canonTokens_value (v : J) :
   rw [unmarshal_gtoks]
   cases h : marshalJ (sortJ v) <;> simp [h]
 
+/-! ## input that cannot be represented is rejected, never read as different content -/
+
+/-- tokenToValue returns its error exactly for the number that is neither an int64 nor a
+    float64; every other token is read as the leaf it denotes -/
+theorem tokenToValue_rejects_iff (l : Lit) :
+    (tokenToValue l = none ↔ l = .over) ∧ ∀ a : Atom, tokenToValue (litOf a) = some a :=
+  ⟨tokenToValue_none l, tokenToValue_litOf⟩
+
+/-- CanonicalJSON on the raw tokens of the decoder (any sequence it can emit, ending in io.EOF
+    or in a decoder error): a text is produced exactly when the tokens are those of one complete
+    value `x`, the input ends there and no surviving string has U+FFFD — and then it is the
+    canonical text of that very `x`; everything else is an error (never a nil in the tree) -/
+theorem raw_reader_total (ts : List RTok) (eof : Bool) (hv : decValid (ts.map cook) = true) :
+    (∀ cs, canonRaw ts eof = .ok cs ↔ (eof = true ∧ ∃ x, ts = rtoks x ∧ canonChars x = some cs)) ∧
+    canonRaw ts eof ≠ .nilval :=
+  canonRaw_total ts eof hv
+
+/-- a number beyond float64 anywhere in the input (top level, array element, member value,
+    after the top-level value) makes CanonicalJSON fail: it is not read as null or as anything else -/
+theorem unrepresentable_number_rejected (ts : List RTok) (eof : Bool)
+    (hv : decValid (ts.map cook) = true) (ho : RTok.lit .over ∈ ts) : canonRaw ts eof = .err := by
+  have hb : GTok.bad ∈ ts.map cook := by
+    have := List.mem_map_of_mem (f := cook) ho
+    simpa [cook, tokenToValue] using this
+  unfold canonRaw canonTokens
+  rw [unmarshal_bad _ eof hv hb]
+
+-- [1e999], {"a":1e999}, 1e999 and `1 1e999` are streams the decoder emits, and they are rejected
+example : decValid ([RTok.lbrack, .lit .over, .rbrack].map cook) = true ∧
+    (match canonRaw [.lbrack, .lit .over, .rbrack] true with | .err => true | _ => false) = true := by decide
+example : decValid ([RTok.lbrace, .lit (.str [0x61]), .lit .over, .rbrace].map cook) = true ∧
+    (match canonRaw [.lbrace, .lit (.str [0x61]), .lit .over, .rbrace] true with | .err => true | _ => false) = true := by
+  decide
+example : (match canonRaw [.lit .over] true with | .err => true | _ => false) = true ∧
+    (match canonRaw [.lit (.int 1), .lit .over] true with | .err => true | _ => false) = true := by decide
+-- while [null] is read as [null]
+example : (match canonRaw [.lbrack, .lit .null, .rbrack] true with
+    | .ok cs => cs == [0x5B, 0x6E, 0x75, 0x6C, 0x6C, 0x5D] | _ => false) = true := by decide
+
 example : decValid [.lbrack, .val (.int 1)] = true ∧
     (match unmarshal [.lbrack, .val (.int 1)] true with | .err => true | _ => false) = true := by decide
 example : decValid [.val (.int 1), .val (.int 2)] = true ∧
@@ -281,7 +320,14 @@ theorem reader_shape :
     calls_handleObject = ["new", "make", "handleAttribute", "Sort", "append"] ∧
     calls_handleArray = ["new", "make", "handleNextToken", "append"] ∧
     calls_handleAttribute = ["handleNextToken", "New", "new", "string", "handleNextToken"] ∧
-    calls_tokenToValue = ["String", "Int64", "Integer", "Float64", "Float", "Bool"] := by decide
+    calls_tokenToValue = ["String", "Int64", "Integer", "Float64", "Float", "Errorf", "Bool", "Errorf"] := by decide
+/-- tokenToValue dispatches on the token's type: a number that is neither Int64 nor Float64 and a
+    token of an unknown type end in an error; `Null{}` is returned for the `nil` token only and
+    nothing is returned outside the switch (no fall-through value) -/
+theorem token_dispatch :
+    tokenToValue_dispatch =
+      [("string", ["String"]), ("json.Number", ["Integer", "Float", "error"]), ("bool", ["Bool"]),
+       ("nil", ["Null"]), ("default", ["error"]), ("(outside)", [])] := by decide
 
 end Expect
 
